@@ -11,9 +11,9 @@ BASELINE = "cd /repo && /venv/bin/python -m pytest -ra -q -p no:cacheprovider --
 CHECKS = {
     "C01": dict(
         level="exploration",
-        technique="deviation-bounded enumeration (k<=1 quick, k<=2 thorough) of wavefunction objects x 5 targets x allow_changes on the real dump_one/load_one, independent GTO evaluator as oracle on the reloaded object AND on an independent parse of the written FCHK/WFN/WFX/Molden file; corpus sweep",
+        technique="deviation-bounded enumeration (k<=1 quick, k<=2 thorough) of wavefunction objects x 5 targets x allow_changes on the real dump_one/load_one, independent GTO evaluator as oracle on the reloaded object AND on an independent parse of the written file (all five formats); corpus sweep",
         text="Every wavefunction object with <=k deviations over centers, shell set, contraction scheme, shell order, conventions, orbital kind, extras is written to FCHK, Molden, Molekel, WFN, WFX "
-        "with and without allow_changes; a written file must reload to the same nuclei, orbital values at 14 probe points, occupations, energies, spin and densities; the written FCHK/WFN/WFX/Molden file is also parsed by ref/wfreaders.py (no iodata reader) and must denote the same orbitals, occupations, energies and densities; full products shell order x conventions and (FCHK) conventions x stored density matrices; every corpus wavefunction file is converted to every target.",
+        "with and without allow_changes; a written file must reload to the same nuclei, orbital values at 14 probe points, occupations, energies, spin and densities; the written file (FCHK, WFN, WFX, Molden, Molekel) is also parsed by ref/wfreaders.py (no iodata reader) and must denote the same orbitals, occupations, energies and densities; full products shell order x conventions and (FCHK) conventions x stored density matrices; every corpus wavefunction file is converted to every target.",
         note="orbital values by ref/gto.py on the source (rounded to the printed digits of exponents/contractions) and on the reloaded object; tolerances = 0.6 unit in the last printed place, linearly propagated",
         design="DESIGN.md §2 C01",
     ),
